@@ -8,6 +8,7 @@ import (
 	"context"
 	"fmt"
 	"sort"
+	"strings"
 	"time"
 
 	"github.com/Comcast/sheens/core"
@@ -56,6 +57,8 @@ func prog(u *gen.Uid, k int, f string, emitAfter bool, to interface{}) *ref.Prog
 	return p
 }
 
+var manyKinds = []string{"reject2", "reject3", "reject4", "reject5", "reject7", "nomatch5", "nomatch8", "nomatch12"}
+
 type chainCase struct {
 	Spec     *ref.ASpec `json:"spec"`
 	Settings int        `json:"settings"`
@@ -88,6 +91,24 @@ func chain(u *gen.Uid, ks []int, fs []string, after []bool, guards []string, set
 				g.Ops = append(g.Ops, ref.Op{Op: "fail", V: u.Next("G")})
 			}
 			n.Branching.Branches = []*ref.ABranch{{Target: names[i+1], Guard: g}, {Target: names[i+1]}}
+			// many branches before the one that is followed: "rejectN" = N guards that emit
+			// and reject, "nomatchN" = N patterns that do not match
+			var cnt int
+			if _, err := fmt.Sscanf(guards[i], "reject%d", &cnt); err == nil {
+				n.Branching.Branches = nil
+				for j := 0; j < cnt; j++ {
+					gj := prog(u, 1+j%2, "none", false, to)
+					gj.Ret = "null"
+					n.Branching.Branches = append(n.Branching.Branches, &ref.ABranch{Target: "aerr", Guard: gj})
+				}
+				n.Branching.Branches = append(n.Branching.Branches, &ref.ABranch{Target: names[i+1]})
+			} else if _, err := fmt.Sscanf(guards[i], "nomatch%d", &cnt); err == nil {
+				n.Branching.Branches = nil
+				for j := 0; j < cnt; j++ {
+					n.Branching.Branches = append(n.Branching.Branches, &ref.ABranch{Target: "aerr", HasPattern: true, Pattern: map[string]interface{}{"never": float64(j)}})
+				}
+				n.Branching.Branches = append(n.Branching.Branches, &ref.ABranch{Target: names[i+1]})
+			}
 		}
 		a.Nodes[names[i]] = n
 	}
@@ -137,8 +158,8 @@ func idsOf(xs []interface{}) []string {
 }
 
 func Run(cfg fw.Config, rec *fw.Rec) {
-	rec.Rule = "three-node action chains start->n1->n2->done; each action is 'emit k unique ids, mutate, fail by f [, emit again]' for k in 0..4 and f in {none, throw, infinite loop under a deadline, return number/string/array/function/NaN/bool, _.out(unserialisable), _.out(NaN)}; branches optionally guarded by guards that emit and then accept / reject / fail; 3 error settings; observed through Stride.Emitted, Walked.DoEmitted and sio.Crew Result.Emitted (one machine, and two machines with different emissions processing one message: one batch per machine); the observed id sequence must equal the ids of the reference's successfully completed actions in execution order; non-trivial = chain in which some action emitted and some action or guard failed or rejected; distinct by chain description"
-	rec.Required = []string{"walk_checked", "crew_checked", "crew_two_machines_checked", "failure_after_emit", "failure_timeout", "failure_bad_return", "failure_out_unserialisable", "guard_emitted_nothing", "position_first", "position_middle", "position_last"}
+	rec.Rule = "three-node action chains start->n1->n2->done; each action is 'emit k unique ids, mutate, fail by f [, emit again]' for k in 0..4 and f in {none, throw, infinite loop under a deadline, return number/string/array/function/NaN/bool, _.out(unserialisable), _.out(NaN)}; branches optionally guarded by guards that emit and then accept / reject / fail, also 2-7 rejecting emitting guards or 5-12 non-matching branches before the branch that is followed; 3 error settings; observed through Stride.Emitted, Walked.DoEmitted and sio.Crew Result.Emitted (one machine, and two machines with different emissions processing one message: one batch per machine); the observed id sequence must equal the ids of the reference's successfully completed actions in execution order; non-trivial = chain in which some action emitted and some action or guard failed or rejected; distinct by chain description"
+	rec.Required = []string{"walk_checked", "crew_checked", "crew_two_machines_checked", "failure_after_emit", "failure_timeout", "failure_bad_return", "failure_out_unserialisable", "guard_emitted_nothing", "several_rejecting_guards_before_followed_branch", "many_branches_before_followed_branch", "position_first", "position_middle", "position_last"}
 	rec.Assume = []string{"a timed-out action is the last one executed in its walk (later actions under an expired context may legitimately either run or time out)"}
 	type job struct {
 		ks      []int
@@ -171,6 +192,23 @@ func Run(cfg fw.Config, rec *fw.Rec) {
 			}
 		}
 	}
+	// many rejecting guards / non-matching branches before the branch that is followed
+	for pos := 0; pos < 3; pos++ {
+		for _, g := range manyKinds {
+			for _, k := range []int{1, 3} {
+				for _, f := range []string{"none", "throw"} {
+					for setting := 0; setting < 3; setting++ {
+						ks := []int{1, 2, 1}
+						fs := []string{"none", "none", "none"}
+						gs := []string{"none", "none", "none"}
+						ks[pos], fs[(pos+1)%3] = k, f
+						gs[pos] = g
+						jobs = append(jobs, job{ks, fs, []bool{false, false, false}, gs, setting})
+					}
+				}
+			}
+		}
+	}
 	// random combinations
 	r := cfg.Rng("c08", 0)
 	for i := cfg.Pick(3000, 400000); i > 0; i-- {
@@ -186,7 +224,11 @@ func Run(cfg fw.Config, rec *fw.Rec) {
 			j.ks = append(j.ks, r.Intn(5))
 			j.fs = append(j.fs, f)
 			j.after = append(j.after, r.Intn(3) == 0)
-			j.guards = append(j.guards, []string{"none", "accept", "reject", "fail"}[r.Intn(4)])
+			if r.Intn(4) == 0 {
+				j.guards = append(j.guards, manyKinds[r.Intn(len(manyKinds))])
+			} else {
+				j.guards = append(j.guards, []string{"none", "accept", "reject", "fail"}[r.Intn(4)])
+			}
 		}
 		jobs = append(jobs, j)
 	}
@@ -360,6 +402,12 @@ func Run(cfg fw.Config, rec *fw.Rec) {
 		for _, g := range j.guards {
 			if g != "none" {
 				rec.Bucket("guard_emitted_nothing")
+				if strings.HasPrefix(g, "reject") && g != "reject" {
+					rec.Bucket("several_rejecting_guards_before_followed_branch")
+				}
+				if strings.HasPrefix(g, "nomatch") {
+					rec.Bucket("many_branches_before_followed_branch")
+				}
 				if g != "accept" {
 					failed = true
 				}
